@@ -149,5 +149,13 @@ func (exec *Executor) getArrayIndex(
 		)
 	}
 
+	if !isComparableNumber(found.list[0]) {
+		// A json.Number outside the range of int64 and float64.
+		return 0, fmt.Errorf(
+			"%w: jsonpath array subscript is out of integer range",
+			ErrVerbose,
+		)
+	}
+
 	return getJSONInt32(found.list[0], "array subscript")
 }
